@@ -116,12 +116,52 @@ def spawn_shards(mod, prop, tier, seed, repo, plan, scratch_root, mode="run", re
     return results, watchdog_fired
 
 
+def executable_lines(path):
+    """Line numbers inside function bodies of `path` that carry code (from the compiled code objects)."""
+    try:
+        with open(path, "rb") as f:
+            top = compile(f.read(), path, "exec", dont_inherit=True)
+    except Exception:
+        return set()
+    out = set()
+    todo = [top]
+    while todo:
+        co = todo.pop()
+        # module and class bodies run at import, before the monitor is switched on: only function bodies are counted
+        # (CO_OPTIMIZED marks them), without the line of the `def` itself
+        if co.co_flags & 0x1:
+            for _s, _e, ln in co.co_lines():
+                if ln and ln != co.co_firstlineno:
+                    out.add(ln)
+        for c in co.co_consts:
+            if hasattr(c, "co_lines"):
+                todo.append(c)
+    return out
+
+
+def line_summary(repo, lines):
+    """Per repository source file: lines of code the workload executed (LINE events of sys.monitoring) over lines that carry code.
+    With VERIF_LINES_OUT=<file> the full set is written there as well (selftest/line_reach.py merges these)."""
+    out = {}
+    for rel in sorted(lines):
+        if not rel.startswith("productmd" + os.sep):
+            continue
+        ex = executable_lines(os.path.join(repo, rel))
+        hit = set(lines[rel]) & ex if ex else set(lines[rel])
+        out[rel] = "%d/%d" % (len(hit), len(ex))
+    dump = os.environ.get("VERIF_LINES_OUT")
+    if dump:
+        with open(dump, "w") as f:
+            json.dump(dict((k, sorted(v)) for k, v in lines.items()), f)
+    return out
+
+
 def aggregate(results):
     agg = {"evaluations": 0, "trivial": 0, "distinct_by_construction": 0, "sigs": set(), "sig_overflow": 0, "classes": {}, "monitors": {},
            "reach": {}, "validators": {"entered": {}, "raised": {}}, "violations": [],
            "violation_count": 0, "violation_keys": {}, "samples": [], "notes": {}, "notes_by_shard": [],
            "inconclusive": [], "hashseeds": [], "audit_events": 0, "harvest": {}, "shard_wall": [],
-           "broken": [], "reach_absent": set()}
+           "broken": [], "reach_absent": set(), "lines": {}}
     for r in results:
         res = r["res"]
         if r["rc"] == 3:
@@ -146,6 +186,8 @@ def aggregate(results):
             m["fired"] += v["fired"]
         for k, v in res["reach"].items():
             agg["reach"][k] = agg["reach"].get(k, 0) + v
+        for k, v in (res.get("lines") or {}).items():
+            agg["lines"].setdefault(k, set()).update(v)
         for part in ("entered", "raised"):
             for k, v in (res.get("validators") or {}).get(part, {}).items():
                 agg["validators"][part][k] = agg["validators"][part].get(k, 0) + v
@@ -383,6 +425,8 @@ def conclude(mod, prop, tier, seed, repo, plan, agg, t0, write_evidence=True):
         print("BROKEN property=%s reason=%s" % (prop, "; ".join(agg["broken"])[:800]))
     print("RESULT property=%s verdict=%s" % (prop, verdict))
 
+    if not write_evidence and os.environ.get("VERIF_LINES_OUT"):
+        line_summary(repo, agg["lines"])
     if write_evidence:
         samples = agg["samples"] or [{"note": "no sample recorded"}]
         harvest = agg.get("harvest") or {}
@@ -405,6 +449,7 @@ def conclude(mod, prop, tier, seed, repo, plan, agg, t0, write_evidence=True):
                                     max([agg["reach"].get(a, 0) for a in (f if isinstance(f, (list, tuple)) else [f])] or [0]))
                                    for f in required),
             "reach_functions_entered": len([k for k, v in agg["reach"].items() if v > 0]),
+            "reach_lines": line_summary(repo, agg["lines"]),
             "reach_anchors_absent_in_this_tree": sorted(agg["reach_absent"]),
             "reach_note": "counts saturate at the per-shard cap (%s) times the number of shards" % (
                 (plan.get("params") or {}).get("reach_cap", 200)),
